@@ -44,7 +44,7 @@ CLAIMS = {
  "C09": ("channel-ownership analysis (close vs. senders), key-derivation provenance, who-may-read census, send-kind check over go/ssa",
          "Decided: no channel is closed while another function sends on it unjoined (the defect repaired in /repo); the association table is keyed, filled and cleaned with one derivation of the client address; "
          "replies go to the address fixed at association creation; one ReadFrom site in one reader goroutine per socket, one blocking forward per datagram, one serve loop per listener; close notifications are never dropped. "
-         "Interleavings with idle expiry and back-pressure are not decided.",
+         "Queued datagram records and their pooled buffers are per-iteration storage and never sub-slices; packetConn.Read releases a pooled buffer iff the datagram is exhausted; Close releases before it notifies; Close and Read reach a blocking notification. Interleavings with idle expiry and back-pressure are not decided.",
          "DESIGN.md section 4 C09"),
  "C13": ("path evaluation of pipeConnection/Accept, guard-equality and dominance rules for the shutdown protocol, bounded abstract interpretation of the route handler",
          "Decided: hand-off is the wrapper's fallback; pipeConnection sends exactly once and reports errHijacked on every path; Close and buffer recycling happen under the same 'not hijacked' guard; the WaitGroup/close/drain "
@@ -59,12 +59,12 @@ CLAIMS = {
  "C10": ("finite-predicate path evaluation of every selection policy over pools of 0..3 upstreams and all availability/count/random outcomes; truth table of available()",
          "Decided exhaustively within the bound: a policy only returns an upstream that available() accepted on that path, never dereferences an empty slot, returns nil when none is available and (first, random, least_conn) some "
          "upstream when one is; first picks the earliest, least_conn a minimal one; available = healthy and not full with every peer consulted; round_robin advances its counter per probe; ip_hash hashes only upstream and client. "
-         "random_choose's must-return clause and distributions are not claimed.",
+         "Pool states (availability and, for least_conn, connection counts of every upstream) are fixed per evaluation; round_robin is evaluated for every starting counter residue and must return an upstream when one is available. random_choose's must-return clause and distributions are not claimed.",
          "DESIGN.md section 4 C10"),
  "C11": ("pairing/path rules over go/ssa, who-may-write census of the counters, path evaluation of the retry loop and of healthy/full/available",
          "Decided: every remembered failure (+1) starts a goroutine that cannot end without the -1 on the same peer after waiting; counters are written only by their atomic add/CAS in countFail/countConn/setHealthy; "
          "the retry loop re-selects only after tryAgain()==true and gives up with the last error; on success each peer is counted +1, and -1 in the deferred cleanup together with closing every connection; active-check polarity; "
-         "the availability predicates consult every peer. The timing of the failure window is not decided.",
+         "the availability predicates consult every peer. tryAgain gives up iff time.Since(start) >= try_duration and otherwise waits try_interval or cancellation; no option defaulted after the upstreams are provisioned is read while provisioning them; every policy honours available(). The timing of the failure window is not decided.",
          "DESIGN.md section 4 C11"),
  "C12": ("finite-predicate path evaluation of the proxy_protocol handler, allow list, tidyRules and dialPeers; constant/dominance rules for the version table",
          "Decided over every outcome: untrusted peers pass through untouched, parse errors stop the chain, accepted headers publish the parsed conn under the key GetConn reads and hand on Wrap(conn); Wrap hands no unread bytes on; "
@@ -78,7 +78,7 @@ CLAIMS = {
  "C16": ("finite-predicate path evaluation of Socks5Handler.Provision over command lists and credential maps; who-may-call census",
          "Decided for command lists of 0..2 entries resolving to CONNECT/ASSOCIATE/BIND/empty/unknown and credential maps of 0 or 2 entries: the PermitCommand rule enables exactly the configured commands (default CONNECT+ASSOCIATE), "
          "any other resolved value fails provisioning, NoAuth is offered iff no credentials are configured and otherwise only user/password over the resolved map, both options reach NewServer; the package itself never dials or listens and Handle "
-         "only delegates to ServeConn. Enforcement inside go-socks5 is trusted.",
+         "only delegates to ServeConn. Command lists with repeated entries are part of the table; every account name is the resolved name stored under a non-empty test. Enforcement inside go-socks5 is trusted.",
          "DESIGN.md section 4 C16"),
  "C18": ("byte-layout abstract interpretation of parser and serialiser (fields tracked as byte ranges of a symbolic input of concrete length), exhaustive evaluation of the header byte codec, struct size computation",
          "Decided for 12 wire types of OpenVPN, WireGuard and RDP and every length at/around their size bounds: parse-then-serialise reproduces the input byte for byte on every accepting path, lengths outside the bounds are rejected on every path "
@@ -88,21 +88,21 @@ CLAIMS = {
  "C07": ("AST extraction of cryptobyte read sequences from the repo's parser and from the toolchain's crypto/tls source (oracle parsed on every run); SSA dominance/provenance rules for the record gate, length and placeholders",
          "Decided: the hello is read only behind the record-type-22 gate with exactly the announced length; the fixed part and all 18 extension cases shared with crypto/tls perform the same ordered reads with the same case constants; "
          "each extension feeding ClientHelloInfo fills the field crypto/tls fills; placeholders and handshake sub-matchers use the parsed hello; both reads propagate need-more and the matcher does not consult the amount of buffered data. "
-         "Value-level agreement over all hellos (the differential statement) is not decided.",
+         "The cipher-suite loop and every shared extension case have the same ordered effects (reads, tests, constants, appends, continue/return) as crypto/tls; no path to a matched verdict avoids the parse or a placeholder; the supported-versions fallback is applied on every way out of the parser. Value-level agreement over all hellos (the differential statement) is not decided.",
          "DESIGN.md section 4 C07"),
  "C14": ("field-access census over the matcher call graph, constant table comparison against an independent specification table, provenance lint for netip addresses, path evaluation of the DNS decision",
          "Decided: every configured filter field of the 20 matchers is consulted; pre-parsed filters are assigned during provisioning; 41 wire constants/byte strings/byte gates equal the specification table; addresses tested against CIDR "
-         "filters are in canonical form; the DNS allow/deny/default_deny/prefer_allow decision equals the documented table for every rule-hit combination. The matchers' verdict functions over all messages are not decided.",
+         "filters are in canonical form; the DNS allow/deny/default_deny/prefer_allow decision equals the documented table for every rule-hit combination. Verdict tables (path evaluation on first messages with fixed bytes, boundary and near-miss cases) for ssh, proxy_protocol, xmpp, socks4, socks5 and wireguard equal reference predicates; the RDP header predicates equal references written from MS-RDPBCGR/RFC 1006 over value tables; the clock matcher converts per connection; plain and regexp sibling filters test the same expression; OpenVPN TCP bounds are the datagram bounds plus the opcode byte. The matchers' verdict functions over all messages are not decided.",
          "DESIGN.md section 4 C14"),
  "C15": ("AST extraction of documented grammar vs. accepted option labels, struct tag census, codec field agreement, map-range determinism lint, registration census, nil-guard dominance rule for option handlers",
          "Decided: for 21 Caddyfile unmarshallers the documented option keywords equal the accepted labels; custom JSON codecs use one field in both directions; 30+ configuration structs are tagged name,omitempty; no slice is built in "
-         "map iteration order; every module type is registered and imported; option handlers never replace a configuration sub-object another option may have filled; merged global blocks get fresh server keys. Semantic equality of the adapted JSON "
+         "map iteration order; every module type is registered and imported; option handlers never replace a configuration sub-object another option may have filled; merged global blocks get fresh server keys. Appends assign the field they extend; keyword shortcuts are compared after prefix stripping; duplicate-option flags are tested and set consistently; optional trailing arguments set their field only when present. Semantic equality of the adapted JSON "
          "for all generated Caddyfiles is not decided.",
          "DESIGN.md section 4 C15"),
  "C04": ("bounds prover over go/ssa (difference constraints from type widths, definitions, library contracts, loop induction, dominating branches, value numbering) with a reviewed table for the residue; bounded path evaluation of the postgres parser; key/type agreement census; reachability of explicit panics",
-         "Decided for all ~250 per-connection functions: each of ~360 index/slice/make/division sites is proven in range (about 92%) or listed with a reason in specs/audited_bounds.json (28 sites, each a stated blind spot); remote-controlled "
+         "Decided for all ~250 per-connection functions: each of ~360 index/slice/make/division sites is proven in range (about 92%) or listed with a reason in specs/audited_bounds.json (16 sites, each a stated blind spot); remote-controlled "
          "allocations are bounded by 65 KiB; unchecked type assertions on context/variable-table values agree with all producers of their key; no explicit panic is reachable; selection policies never dereference an empty slot; the postgres "
-         "parser is evaluated for every declared length 0..16 and the limits with symbolic content without any out-of-range access. Third-party parsers and general nil dereferences are not decided.",
+         "parser is evaluated for every declared length 0..16 and the limits with symbolic content without any out-of-range access. The prover works across helper boundaries (parameter facts from all call sites, case split over the callee's returns); sites that the scenario tables of other rules evaluate with concrete lengths are discharged by those evaluations; every other unchecked type assertion is justified (boxed type, keyed producers, pool producers, or path evaluation of the http2 frame loop); the audited table (16 sites) is keyed by function and indexed object. Third-party parsers and general nil dereferences are not decided.",
          "DESIGN.md section 4 C04"),
 }
 
